@@ -15,7 +15,7 @@ def thrEn (cfg : Cfg) (s : St) : Pc → Bool
   | .cmLockTr _ | .dcLockTr _ | .clLockTr => !s.trlk
   | .cmLockClk _ => !s.clk
   | .srSet => recvs cfg.m s.eh || offPer cfg.m s.eh || s.closed
-  | .clAcq => !s.tok
+  | .clAcq => !s.tok || (s.eh == .closing && cfg.m.hasperrKeepsLock && cfg.closeSel)
   | .clWait => (s.mc == .exited) && (s.tc == .exited)
   | _ => true
 
@@ -33,7 +33,7 @@ def bgEn (cfg : Cfg) (s : St) (b : Bool) : Bool :=
 
 /-- `compactionError` may have an enabled step of its own -/
 def ehEn (cfg : Cfg) (s : St) : Bool :=
-  (offLock cfg.m s.eh && !s.tok) || (closes cfg.m s.eh && s.closed) || (s.eh == .closing && s.tok)
+  (offLock cfg.m s.eh && !s.tok) || (closes cfg.m s.eh && s.closed) || (s.eh == .closing && s.tok && cfg.m.hasperrGivesBack)
 
 def canStep (cfg : Cfg) (s : St) : Bool :=
   s.ws.any (thrEn cfg s) || bgEn cfg s false || bgEn cfg s true || ehEn cfg s
@@ -181,6 +181,8 @@ theorem canStep_of_step (cfg : Cfg) (s t : St) (f : Bool) (h : Step cfg f s t) :
   | clBody _ i hi =>
     exact canStep_thr cfg s i _ hi (by simp_all [thrEn, St.bg])
   | clAcq _ i hi ht =>
+    exact canStep_thr cfg s i _ hi (by simp_all [thrEn, St.bg])
+  | clAcqKept _ i hi he hk hs =>
     exact canStep_thr cfg s i _ hi (by simp_all [thrEn, St.bg])
   | clWait _ i hi hm ht =>
     exact canStep_thr cfg s i _ hi (by simp_all [thrEn, St.bg])
